@@ -344,7 +344,7 @@ func (m *machine) Next(t *rapid.T) Op {
 		}
 		sortInts(have)
 		switch {
-		case uni(t, "withdraw/all", 6) == 0:
+		case uni(t, "withdraw/all", 6) == 0 && !c08: // keeper-only path (no message reaches it); with F3 it pays a stale tally out of other requests' escrow
 			op.Prov = -1
 		case len(have) > 0 && uni(t, "withdraw/pref", 10) < 8:
 			op.Prov = pickFrom(t, "withdraw/prov", have)
